@@ -160,6 +160,10 @@ def nested_anon_of(text):
     return False
 
 
+def tag_exceeds_30_bits(text):
+    return any(int(n) >= 2**30 for n in re.findall(r"\[\s*(?:UNIVERSAL|APPLICATION|PRIVATE|CONTEXT)?\s*(\d+)\s*\]", strip_comments(text)))
+
+
 def match_finding(stage, job):
     """-> finding id or None.  Each rule = symptom signature (the site) AND a predicate on (module text, options)."""
     text, opts = job["mod"]["text"], job["opts"]
@@ -188,13 +192,16 @@ def match_finding(stage, job):
             return "C10-param-circular-include"
         if re.search(r"empty enum is invalid|asn_MAP_\w+_tag2el_\d+. undeclared", blog) and has_empty_set(text):
             return "C10-empty-set"
+    if stage == "overflow":
+        if bound_exceeds_long(text) or tag_exceeds_30_bits(text):
+            return "C10-constant-exceeds-c-type"
     if stage == "descr":
         bad = job["failing_descrs"]       # [(clause, kind, name, term)]
         if bad and all(c == 7 and k == "KChoice" and n in choice_refs(text) and re.search(r"\] None (None|\(Some \(mkO [^)]*\)\)\)) \(SChoice", t) for c, k, n, t in bad) \
            and "-no-gen-PER" not in opts:
             return "C10-choice-ref-no-per"
         if set(job["failing_clauses"]) <= {4, 6} and bound_exceeds_long(text):
-            return "C10-per-bound-exceeds-long"
+            return "C10-constant-exceeds-c-type"
     return None
 
 
@@ -277,6 +284,10 @@ def main(tier):
                    {"build_log": j.get("build_log", "")[-1500:]})
         else:
             run.count("warnings", j.get("warnings", 0))
+            if j.get("overflow"):
+                run.count("constant-overflow-in-generated-tables")
+                report("overflow", "build:constant-changes-value", "a constant of the generated tables does not fit its C type and changes value at compile time "
+                       "(the descriptor is not the one asn1c computed)", {"gcc": j["overflow"]})
             if j.get("allobj_undefined"):
                 run.count("observation:linking-every-emitted-object-directly-fails(not-a-violation)")
         if j.get("cxx_rc") != 0:
